@@ -90,7 +90,7 @@ fn path_charset_ok(p: &str) -> bool {
     !p.is_empty()
         && !p.starts_with('/')
         && p.bytes()
-            .all(|c| c.is_ascii_alphanumeric() || matches!(c, b'_' | b'.' | b'-' | b'/'))
+            .all(|c| c.is_ascii_alphanumeric() || matches!(c, b'_' | b'.' | b'-' | b'/' | b'~' | b'+'))
 }
 
 /// Is this text printable as a `P` (used by `dump` to decide between `abs:` and `rel:`)?
